@@ -398,7 +398,11 @@ func checkC01(t *testing.T, sc *Scenario) *Verdict {
 	case OutBudget:
 		// unbounded recursion / livelock through scheduling points: identify by the sites, not by
 		// the goroutine numbers
-		return v.violation("step-budget-exhausted", gidRe.ReplaceAllString(firstLine(res.Detail), ""), res.Detail, replayForm())
+		sig := res.Detail
+		if i := strings.Index(sig, " at "); i > 0 {
+			sig = sig[:i]
+		}
+		return v.violation("step-budget-exhausted", sig, res.Detail, replayForm())
 	default:
 		return v.violation("c01-"+res.Outcome, firstLine(res.Detail), res.Detail, replayForm())
 	}
